@@ -31,7 +31,7 @@ NEED_CLASSES = {
 }
 PROBE_CLASSES = ["random", "lattice", "seam", "antipodal", "near-antipodal", "coincident", "near-1e-9", "near-1e-12",
                  "bound", "corner", "pivot", "so3-threshold", "level", "altitude", "light-cone", "canned-level",
-                 "canned-climb", "canned-loop", "canned-loop-vana", "canned-nopath", "canned-steep"]
+                 "canned-climb", "canned-loop", "canned-loop-vana", "canned-nopath", "canned-steep", "canned-medium"]
 # what the recording must have met in the spaces with laws of their own (counted by the harness from the real objects)
 NEED_FACTS = {
     6: ["airplane_pairs_with_path", "spacetime_finite", "spacetime_infinite"],
